@@ -446,32 +446,47 @@ def isInt : Obj → Bool
   | .int _ | .bool _ => true
   | _ => false
 
-/-- The loop of `get_widths`: `r` is the list of pending numbers (at most 2 between iterations). -/
+/-- One iteration of the loop of `get_widths` on the (resolved) element `v` with the pending numbers `r`
+(at most 2 between iterations): the entry produced, if any, and the new pending list.  Ranges are clamped
+to the CID range `0 .. MAX_CID` (constant regenerated from pdffont.py), as the repaired code does. -/
+def widthStep (v : Obj) (r : List Obj) : Option WEntry × List Obj :=
+  match v with
+  | .arr ws =>
+    match r.getLast? with
+    | some c => (some (.run c ws), [])
+    | none => (none, r)
+  | _ =>
+    if isNumber v then
+      match r ++ [v] with
+      | [c1, c2, w] =>
+        if isInt c1 && isInt c2 then
+          (some (.range (max (intOf c1) 0) (min (intOf c2) Gen.Lenient.maxCid) w), [])
+        else (none, [])
+      | r' => (none, r')
+    else (none, r)
+
+/-- The loop of `get_widths`. -/
 def getWidthsLoop (strict : Bool) (g : Graph) : List Obj → List Obj → Except Err (List WEntry)
   | [], _ => .ok []
-  | v :: rest, r => do
-    let v ← resolve1 strict g v
-    match v with
-    | .arr ws =>
-      match r.getLast? with
-      | some c => do
-        let tl ← getWidthsLoop strict g rest []
-        pure (.run c ws :: tl)
-      | none => getWidthsLoop strict g rest r
-    | _ =>
-      if isNumber v then
-        let r := r ++ [v]
-        match r with
-        | [c1, c2, w] =>
-          if isInt c1 && isInt c2 then do
-            let tl ← getWidthsLoop strict g rest []
-            pure (.range (intOf c1) (intOf c2) w :: tl)
-          else getWidthsLoop strict g rest []
-        | _ => getWidthsLoop strict g rest r
-      else getWidthsLoop strict g rest r
+  | v :: rest, r =>
+    match resolve1 strict g v with
+    | .error e => .error e
+    | .ok v' =>
+      match widthStep v' r with
+      | (some e, r') =>
+        match getWidthsLoop strict g rest r' with
+        | .error e' => .error e'
+        | .ok tl => .ok (e :: tl)
+      | (none, r') => getWidthsLoop strict g rest r'
 
 def getWidths (strict : Bool) (g : Graph) (seq : List Obj) : Except Err (List WEntry) :=
   getWidthsLoop strict g seq []
+
+/-- Total length of the `c [w1 w2 …]` arrays of the result (they are values of the document). -/
+def runTotal : List WEntry → Nat
+  | [] => 0
+  | .run _ ws :: tl => ws.length + runTotal tl
+  | .range _ _ _ :: tl => runTotal tl
 
 /-- Number of dictionary assignments the Python loop performs for the result. -/
 def widthsWork : List WEntry → Nat
